@@ -641,7 +641,10 @@ static void WikiSort(T *restrict array, const size_t size) {
 					}
 				}
 				
-				if (compare(array[A.end], array[A.end - 1])) {
+				if (compare(array[B.end - 1], array[A.start])) {
+					/* the two ranges are in reverse order, so a simple rotation should fix it */
+					Rotate(array, A.end - A.start, Range_new(A.start, B.end), cache, cache_size);
+				} else if (compare(array[A.end], array[A.end - 1])) {
 					/* these two ranges weren't already in order, so we'll need to merge them! */
 					Range blockA, firstA, lastA, lastB, blockB;
 					size_t minA, indexA, findA;
@@ -765,9 +768,6 @@ static void WikiSort(T *restrict array, const size_t size) {
 						MergeInternal(array, lastA, Range_new(lastA.end, B.end), buffer2);
 					else
 						MergeInPlace(array, lastA, Range_new(lastA.end, B.end), cache, cache_size);
-				} else if (compare(array[B.end - 1], array[A.start])) {
-					/* the two ranges are in reverse order, so a simple rotation should fix it */
-					Rotate(array, A.end - A.start, Range_new(A.start, B.end), cache, cache_size);
 				}
 			}
 			
